@@ -57,7 +57,10 @@ def run(ctx):
         n, steps = (3, 2, 2), 3000
     else:
         closure(ctx, exe, "s2w1u1", 2, 1, 1, True, stray, props)
-        closure(ctx, exe, "s3w2u2", 3, 2, 2, not stray, stray, props)
+        if stray:
+            closure(ctx, exe, "s2w2u1", 2, 2, 1, False, True, props)      # (3/2/2 objects x stray probes: ~15 million transitions)
+        else:
+            closure(ctx, exe, "s3w2u2", 3, 2, 2, True, False, props)
         # objects set up with the CSTL_*_INITIALIZER macros instead of the init functions: same closure, same model
         closure(ctx, build(ctx, "drv_ptr_macro", "drv_ptr.c", LIB, wrap=WRAP, defs=["USE_INITIALIZER"]), "s2w1u1-macro", 2, 1, 1, True, stray, props)
         if not stray:
